@@ -2,6 +2,10 @@ NOTE_COMMON = ("trusts gqlparser v2.5.1 (also used by pebbles), the harness's se
                "the Go runtime and race detector; absence of violations is a statement about the explored cases only")
 
 CHECKS = [
+    {"property_id": "C09", "category": "fault_enumeration", "design_ref": "DESIGN.md §5 C09",
+     "technique": "fault injection enumerated over (fault kind x downstream call x batch position) of rapid-generated (world, operation) pairs, plus sampled fault pairs",
+     "text": "for every rapid-generated (world, store, operation, batch size) a clean run records the downstream HTTP calls; then each of 28 fault kinds is injected at every call and batch position, one at a time (plus one sampled pair), with and without a healthy bystander operation in the same batch. The oracle: returns within the watchdog, no panic / process death, well-formed envelope, errors non-empty for failure signals, every scalar in data was returned by a service during the request (taint), bystander and later requests unaffected, no gateway goroutine left",
+     "level_note": NOTE_COMMON + "; faults are injected at the fake transport and addressed by content, not by call order"},
     {"property_id": "C11", "category": "exploration", "design_ref": "DESIGN.md §5 C11",
      "technique": "property-based testing (rapid) of the real MultiOpQueryer over a parking fake transport; exhaustive small grid of (N, m)",
      "text": "the real MultiOpQueryer.Query is called with N token-carrying requests and max batch size m over a fake RoundTripper that parks every HTTP call and releases them in a drawn order, optionally failing the call that carries a drawn request (transport error, 500, non-JSON, GraphQL errors) and sending some requests as multipart uploads; the oracle checks N results with result i echoing request i, every request in exactly one call, at most m per call, error without partial results on failure, no goroutine left. The grid N 0..40 x m 1..12 x {FIFO, LIFO} is enumerated exhaustively on every run; thorough adds the race detector",
@@ -36,7 +40,7 @@ CHECKS = [
      "level_note": NOTE_COMMON + "; schedule control limited to callbacks and the 9 verif hook points"},
 ]
 
-_PENDING = ["C06","C08","C09","C10","C12","C13","C14","C15","C16","C17","C18","C19"]
+_PENDING = ["C06","C08","C10","C12","C13","C14","C15","C16","C17","C18","C19"]
 NOT_APPLICABLE = [{"property_id": p, "reason": "check not built yet (work in progress; the technique applies, see DESIGN.md §5)"} for p in _PENDING]
 
 NOTES = "All checks are property-based tests / fuzz targets in /verif/harness (Go, rapid v1.3.0) run by /verif/check; see DESIGN.md."
